@@ -65,7 +65,8 @@ CLAIMED = {
         "data set, no stale/duplicate/negative/wrapped entry) holds again. Shapes (holes, sizes, new length) are "
         "enumerated within stated bounds. The same steps also run against the real file (update / remove data / remove "
         "hole, optionally after a re-open, then re-open and compare every hole), and a drillhole group copied into "
-        "another workspace is edited with source and copy both re-read (no shared state).",
+        "another workspace is edited with source and copy both re-read (no shared state); new depth and interval tables with "
+        "symbolic depths are added to a hole in a later session and read back row by row.",
     ),
     "C16": _symx(
         "C16",
@@ -76,7 +77,8 @@ CLAIMED = {
         "that merged vertices are the inputs' in order, every merged cell connects the same coordinates as its "
         "input cell, data are concatenated with NaN where lacking, and the inputs are unchanged; stored variants re-read "
         "the merged object from the file; drape models are merged layout-agnostically (ghost prisms between inputs). "
-        "Inputs carry uniquely named data (two data of one name and type on one input are outside the claim).",
+        "Referenced, integer and boolean data on subsets of the inputs (concrete values) are merged with the kind's no-data "
+        "code. Inputs carry uniquely named data (two data of one name and type on one input are outside the claim).",
     ),
     "C17": _symx(
         "C17",
@@ -101,7 +103,8 @@ CLAIMED = {
         "(with orphan handling and inverse), None only when allowed, copied vertices/cells/data exactly the "
         "selection re-indexed onto the same coordinates, and for grids the smallest covering sub-grid with blanking. "
         "Block models (float, integer and boolean children), drillholes (collar box, None when missed) and groups "
-        "(inverse handed to every child, nested groups) are covered by their own scenarios.",
+        "(inverse handed to every child, nested groups) and octrees (rotation 0) are covered by their own scenarios; derived "
+        "values (extent, centres, one selection) are evaluated before the symbolic geometry is assigned.",
     ),
     "C18": _symx(
         "C18",
@@ -126,8 +129,9 @@ CLAIMED = {
         "value of the input dtype (unbounded magnitude within the dtype), NaN or +/-inf, are assigned to stored float, "
         "integer and boolean data; z3 proves that an accepted value is representable (integral, inside int32, 0/1), "
         "that the stored dataset holds the value / the no-data code, and that a fresh Workspace on the same file "
-        "reads back what was written (NaN as NaN, integer gaps as the integer no-data code). Text, blobs and value "
-        "maps are outside the claim.",
+        "reads back what was written (NaN as NaN, integer gaps as the integer no-data code). Value maps (symbolic integer keys; "
+        "an alphabet of float / numpy / negative keys) and metadata values of 16 Python / numpy kinds are read back equal or "
+        "refused (values concrete, choice symbolic). Text and blobs are outside the claim.",
         _SYMX_NOTE + "; A-H5: datasets with symbolic content are kept beside the real HDF5 file by a proxy and handed "
         "back unchanged (h5py's own conversions are only exercised for concrete payloads)",
     ),
@@ -167,7 +171,7 @@ CLAIMED["C12"] = _symx(
     _SYMX_NOTE + "; A-H5: symbolic payloads are kept beside the real HDF5 files by a proxy and handed back unchanged; names, "
     "flags, metadata, text, value maps and property-group membership are concrete (evaluated directly)",
 )
-CLAIMED["C12"]["design_ref"] = "DESIGN.md section 12.9"
+CLAIMED["C12"]["design_ref"] = "DESIGN.md section 12.8"
 
 _XH_NOTE = (
     "trusted: CrossHair 0.0.110 (symbolic execution of CPython code with z3) and its models of builtins; the harness "
@@ -193,7 +197,8 @@ CLAIMED["C15"] = _xh(
     "validators: every (referenced parent, value, entity-or-identifier, declared type) combination on a three-level tree is "
     "one explored path of the real validators; restricted parameters (choice list, object type, type list) keep their "
     "stored value when a value is refused with any exception (unhashable values, values without default_type_uid); group "
-    "membership is equality of group names, blank names included.",
+    "membership is equality of group names, blank names included; required_object_data accepts exactly the parent-child pairs "
+    "(two pairs, two parents); FormParameter.register is all-or-nothing.",
 )
 CLAIMED["C15"]["engine"] = "xh+symx"
 
@@ -206,7 +211,8 @@ CLAIMED["C14"] = _xh(
     "forms of six kinds (bool, int, float incl. inf, string, choice, object uuid) keep data value and enabled state for all "
     "2^5 optional/enabled/groupOptional switch combinations; disabling by None survives; data-or-value routing. File level: "
     "the real write_ui_json / read_ui_json with a workspace on disk is explored over all optional/enabled/isValue switch "
-    "combinations (identifiers promoted to the same entities, workspace path re-opened, demotion returns the identifiers). "
+    "combinations (identifiers promoted to the same entities, also a property group owned by a second object; workspace path "
+    "re-opened; demotion returns the identifiers; None assigned to a dependency-enabled parameter is read back as None). "
     "Drillhole-group data, range and file forms are outside the claim.",
 )
 CLAIMED["C14"]["engine"] = "xh+symx"
@@ -221,7 +227,8 @@ CLAIMED["C06"] = {
     "with data / property group is one explored path of the real code: reuse inside a registry is refused, lookup returns the "
     "owner, same-workspace copies get fresh identifiers, cross-workspace copies keep free ones, one type per class; "
     "data and property-group identifiers (given as UUID or text) reused on the same or another object are refused and "
-    "leave the children unchanged; the file re-opens after a refusal.",
+    "leave the children unchanged; the file re-opens after a refusal; an identifier released by removal (references dropped, "
+    "collected) can be given to an entity of any kind and is then looked up to its new owner; a moved entity keeps its identifier.",
     "level_note": _XH_NOTE + "; the workspace-level part runs the real Workspace on real h5py and only the switches are symbolic",
     "design_ref": "DESIGN.md section 5, C06",
 }
